@@ -240,7 +240,7 @@ func c08Gen(rt *rapid.T) c08Case {
 			c.valid, c.feature = false, "invalid-length"
 		}
 		c.node = mkNode("Transpose", nil, []string{"y"}, attrInts("perm", p64...))
-		c.ins = []tensor.Tensor{rangeT(dt, shape)}
+		c.ins = []tensor.Tensor{rangeSpecialT(dt, shape, rapid.IntRange(0, 63).Draw(rt, "contents"))}
 		if c.valid {
 			c.ref = refTranspose(shape, perm)
 			if r >= 3 {
@@ -347,7 +347,7 @@ func c08Gen(rt *rapid.T) c08Case {
 				anyNeg = true
 			}
 		}
-		c.ins = []tensor.Tensor{rangeT(dt, shape), idxTensor(rt, []int{naxes}, starts), idxTensor(rt, []int{naxes}, ends), nil, nil}
+		c.ins = []tensor.Tensor{rangeSpecialT(dt, shape, rapid.IntRange(0, 63).Draw(rt, "contents")), idxTensor(rt, []int{naxes}, starts), idxTensor(rt, []int{naxes}, ends), nil, nil}
 		natural := true
 		for i, a := range axes {
 			if a != i {
@@ -416,7 +416,7 @@ func c08Gen(rt *rapid.T) c08Case {
 		} else {
 			c.node = mkNode("Gather", nil, []string{"y"}, attrI("axis", spelled))
 		}
-		c.ins = []tensor.Tensor{rangeT(dt, shape), idxTensor(rt, ishape, vals)}
+		c.ins = []tensor.Tensor{rangeSpecialT(dt, shape, rapid.IntRange(0, 63).Draw(rt, "contents")), idxTensor(rt, ishape, vals)}
 		if c.valid {
 			c.ref = refGather(shape, axis, ishape, norm)
 			if len(ishape) != 1 {
@@ -447,7 +447,7 @@ func c08Gen(rt *rapid.T) c08Case {
 			t64[i] = int64(d)
 		}
 		c.node = mkNode("Expand", nil, []string{"y"})
-		c.ins = []tensor.Tensor{rangeT(dt, shape), mkT([]int{len(target)}, t64)}
+		c.ins = []tensor.Tensor{rangeSpecialT(dt, shape, rapid.IntRange(0, 63).Draw(rt, "contents")), mkT([]int{len(target)}, t64)}
 		if c.valid {
 			c.ref, _ = refExpand(shape, target)
 			switch {
